@@ -13,7 +13,9 @@ Read with `ast` from scrapli/channel/{sync_channel,async_channel,base_channel}.p
     close(), ... — or any code of ANY other module of the package (scrapli/**/*.py: drivers — commandeer(),
     open(), close() —, factory, transports, ...: `x.channel_lock = ...`, `del`, setattr / delattr) binds or
     deletes `channel_lock` (`gen_lock_rebound_*`: the lock object's identity does not survive a re-open /
-    a commandeer / ...; Lock.v layer D).
+    a commandeer / ...; Lock.v layer D);
+  * whether a public operation writes channel STATE -- any attribute of self: the held-back partial escape sequence,
+    buffers, ... -- outside its lock section, directly or through helpers (`gen_state_written_outside_lock_*`, StateScan).
 Anything the translator does not know (statement kinds, other context managers, aliasing of the
 transport or of an I/O method, decorators, recursion between helpers) aborts the generation."""
 import ast
@@ -282,6 +284,113 @@ class Translator:
         if is_self_attr(f, "_channel_lock"):
             raise Unsupported("self._channel_lock() outside a with statement at line %d" % e.lineno)
         return seq(self.expr(f), *args, LOCAL)
+
+
+# ---------------------------------------------------------------------------------------------
+# channel STATE written outside the lock section
+# ---------------------------------------------------------------------------------------------
+MUTATORS = {"append", "extend", "clear", "pop", "popleft", "appendleft", "update", "insert", "remove", "add", "discard",
+            "setdefault", "put", "put_nowait", "truncate", "seek", "sort", "reverse", "popitem", "__setitem__", "__delitem__",
+            "__setattr__", "__delattr__"}
+
+
+def self_rooted(e):
+    """`self.a`, `self.a.b`, `self.a[k]`, ...: the name of the attribute of self it is rooted at, else None"""
+    first = None
+    while isinstance(e, (ast.Attribute, ast.Subscript)):
+        if isinstance(e, ast.Attribute) and isinstance(e.value, ast.Name) and e.value.id == "self":
+            first = e.attr
+        e = e.value
+    return first if isinstance(e, ast.Name) and e.id == "self" else None
+
+
+class StateScan:
+    """every write to an attribute of the channel object (`self.x = / += / del`, `self.x[k] = `, `self.x.y = `, setattr /
+    delattr / vars / __dict__ on self, a mutating method of an attribute: self.x.append() ..., self handed to a foreign
+    callable) that an operation performs OUTSIDE its `with self._channel_lock()` section -- before it holds the lock or
+    after it gave it up --, directly or through any helper method / property of the class (followed into their bodies).
+    What a caller does there runs concurrently with the operation that holds the lock: the per-channel read state
+    (held-back partial escape sequence, buffers) belongs to the holder."""
+
+    def __init__(self, methods, props):
+        self.methods, self.props = methods, props
+        self.found = []
+        self.stack = []
+        self.done = set()
+
+    def op(self, name):
+        self.found = []
+        self.done = set()
+        self.method(name)
+        return sorted(set(self.found))
+
+    def method(self, name):
+        if name in self.stack or name in self.done:
+            return
+        self.done.add(name)
+        self.stack.append(name)
+        try:
+            for st in self.methods[name].body:
+                self.walk(st)
+        finally:
+            self.stack.pop()
+
+    def hit(self, node, what):
+        self.found.append("%s:%d:%s" % (self.stack[-1], getattr(node, "lineno", 0), what))
+
+    def targets(self, t):
+        if isinstance(t, (ast.Tuple, ast.List)):
+            for x in t.elts:
+                self.targets(x)
+        elif isinstance(t, ast.Starred):
+            self.targets(t.value)
+        elif isinstance(t, (ast.Attribute, ast.Subscript)):
+            r = self_rooted(t)
+            if r is not None:
+                self.hit(t, "self.%s written" % r)
+
+    def walk(self, n):
+        if isinstance(n, (ast.With, ast.AsyncWith)):
+            locked = False
+            for item in n.items:
+                ce = item.context_expr
+                if isinstance(ce, ast.Call) and is_self_attr(ce.func, "_channel_lock"):
+                    locked = True
+                else:
+                    self.walk(ce)
+                if item.optional_vars is not None:
+                    self.targets(item.optional_vars)
+            if locked:
+                return                      # the lock section: the holder's business
+            for st in n.body:
+                self.walk(st)
+            return
+        if isinstance(n, (ast.Assign, ast.Delete)):
+            for t in n.targets:
+                self.targets(t)
+        elif isinstance(n, (ast.AugAssign, ast.AnnAssign, ast.For, ast.AsyncFor, ast.NamedExpr)):
+            self.targets(n.target)
+        elif isinstance(n, ast.comprehension):
+            self.targets(n.target)
+        elif isinstance(n, ast.Attribute):
+            if is_self_attr(n, "__dict__"):
+                self.hit(n, "self.__dict__ used")
+            elif is_self_attr(n) and n.attr in self.props:
+                self.method(n.attr)
+        elif isinstance(n, ast.Call):
+            f = n.func
+            if isinstance(f, ast.Name) and f.id in ("setattr", "delattr", "vars") and n.args \
+                    and isinstance(n.args[0], ast.Name) and n.args[0].id == "self":
+                self.hit(n, "%s(self, ...)" % f.id)
+            elif is_self_attr(f) and f.attr in self.methods:
+                self.method(f.attr)
+            elif isinstance(f, ast.Attribute) and f.attr in MUTATORS and self_rooted(f.value) is not None:
+                self.hit(n, "self.%s mutated (.%s())" % (self_rooted(f.value), f.attr))
+            elif not (is_self_attr(f) or self_rooted(f) is not None) and any(
+                    isinstance(a, ast.Name) and a.id == "self" for a in list(n.args) + [k.value for k in n.keywords]):
+                self.hit(n, "self handed to %s()" % ast.unparse(f))
+        for c in ast.iter_child_nodes(n):
+            self.walk(c)
 
 
 # ---------------------------------------------------------------------------------------------
@@ -604,7 +713,12 @@ def analyse(rel, cls_name, base_methods, base_props, ctor_names, cm_deco):
             raise Unsupported("primitive %s missing" % p)
         tr.method_shape(p)
     ok, why = init_ok(cls, ctor_names, imports)
-    return {"cm": cm, "ops": ops, "init_ok": ok, "init_why": why, "sites": sorted(set(tr.sites)), "own": own, "cls": cls}
+    scan = StateScan({k: v for k, v in methods.items() if k != "_channel_lock"}, props)
+    state = []
+    for name in sorted(ops):
+        state += ["%s->%s" % (name, w) for w in scan.op(name)]
+    return {"cm": cm, "ops": ops, "init_ok": ok, "init_why": why, "sites": sorted(set(tr.sites)), "own": own, "cls": cls,
+            "state_outside": state}
 
 
 def generate(outdir):
@@ -644,6 +758,9 @@ def generate(outdir):
         lines.append("Definition gen_lock_rebound_%s : bool := %s. (* channel_lock bound outside the channel's __init__ "
                      "(class bodies + every module of the package, %d modules): %s *)"
                      % (stack, "true" if rebound else "false", pkg_n, ", ".join(where) or "nowhere"))
+        lines.append("Definition gen_state_written_outside_lock_%s : bool := %s. (* attributes of the channel object written by a public "
+                     "operation outside its lock section (directly or through helpers): %s *)"
+                     % (stack, "true" if a["state_outside"] else "false", ", ".join(a["state_outside"]) or "none"))
         for nme in names:
             s, ds = a["ops"][nme]
             lines.append("Definition gen_%s_%s : shape :=\n  %s." % (stack, nme, coq_shape(s)))
@@ -652,7 +769,7 @@ def generate(outdir):
         lines.append("Definition gen_nops_%s : nat := %d." % (stack, len(names)))
         lines.append("")
         info[stack] = {"ops": names, "cm": coq_cm(a["cm"]), "init_ok": a["init_ok"], "init": a["init_why"],
-                       "lock_rebound": where,
+                       "lock_rebound": where, "state_written_outside_lock": a["state_outside"],
                        "transport_call_sites": ["%s:%d:%s" % x for x in a["sites"]],
                        "timeout_wrapped": [x for x in names if "timeout_wrapper" in a["ops"][x][1]]}
     text = "\n".join(lines) + "\n"
